@@ -473,6 +473,9 @@ impl Session {
                     }
                     num_adrreq = 0;
                     chmaskcntl_valid = true;
+                    // A later block in the same frame starts from the mask now in force, not
+                    // from the working copy a rejected block may have left behind.
+                    channel_mask = region.channel_mask_get();
                 }
                 LinkCheckAns(..) => {
                     /* TODO: Payload contents are not consumed/handled
